@@ -19,6 +19,7 @@ package c13
 import (
 	"bytes"
 	"fmt"
+	"math"
 	"os"
 	"os/exec"
 	"path/filepath"
@@ -392,7 +393,13 @@ func genTriple(t *rapid.T) AxiomCase {
 	kind := rapid.SampledFrom(kindsFor(modeOf(sn))).Draw(t, "kind")
 	keys, layout := genKeySet(t, kind, 7)
 	vals := make([]int64, len(keys))
+	wide := rapid.IntRange(0, 3).Draw(t, "wideValues") == 0
 	for i := range vals {
+		if wide {
+			// totals further apart than MaxInt64 (signed sums): a comparison by subtraction wraps
+			vals[i] = rapid.SampledFrom([]int64{math.MinInt64, -6000000000000000000, -4611686018427387904, -1, 0, 1, 4611686018427387904, 6000000000000000000, math.MaxInt64}).Draw(t, "wval")
+			continue
+		}
 		vals[i] = rapid.Int64Range(-1, 2).Draw(t, "val")
 	}
 	return AxiomCase{Sort: sn, Keys: pbt.SS(keys), Vals: vals, A: -1, Layout: layout}
@@ -673,6 +680,57 @@ func checkPerm(c PermCase) error {
 		}
 	}
 
+	// (8) reduce --sort over a data column: the order is a function of the
+	// final groups and their values, also when the groups were read (a
+	// redraw) while samples were still arriving
+	if !strings.Contains(strings.Join(keys, ""), "\x00") && len(c.Perms) > 0 && len(c.Perms[0]) >= 2 {
+		mk := func() (*aggregation.AccumulatingGroup, error) {
+			acc := aggregation.NewAccumulatingGroup(stdKB)
+			if err := acc.AddGroupExpr("k", "{0}"); err != nil {
+				return nil, err
+			}
+			if err := acc.AddDataExpr("n", "{sumi {.} 1}", "0"); err != nil {
+				return nil, err
+			}
+			if err := acc.SetSort("{n}"); err != nil {
+				return nil, err
+			}
+			return acc, nil
+		}
+		names := func(gs []aggregation.GroupKey) []string {
+			out := make([]string, len(gs))
+			for i, k := range gs {
+				out[i] = string(k)
+			}
+			return out
+		}
+		perm := c.Perms[0]
+		oneGo, err := mk()
+		if err != nil {
+			return fmt.Errorf("harness: %v", err)
+		}
+		for _, x := range perm {
+			oneGo.Sample(keys[smp[x].key])
+		}
+		want := names(oneGo.Groups(sorting.ByNameSmart))
+		for _, cut := range []int{1, len(perm) / 2, len(perm) - 1} {
+			read, err := mk()
+			if err != nil {
+				return fmt.Errorf("harness: %v", err)
+			}
+			for i, x := range perm {
+				if i == cut {
+					read.Groups(sorting.ByNameSmart) // an intermediate redraw
+				}
+				read.Sample(keys[smp[x].key])
+			}
+			got := names(read.Groups(sorting.ByNameSmart))
+			if !sameStrings(got, want) {
+				return fmt.Errorf("AccumulatingGroup.Groups sorted by the data column {n}: the groups were also read after %d of %d samples and end up in another order than without that read\n got: %q\nwant: %q", cut, len(perm), got, want)
+			}
+		}
+	}
+
 	// meaning of the mode, on the displayed sequence
 	if err := checkMeaning(c.Sort, c.Layout, ref); err != nil {
 		return err
@@ -795,6 +853,14 @@ func genPerm(t *rapid.T) PermCase {
 		maxKeys = 28 // beyond 12 elements sort.Sort leaves insertion sort
 	}
 	keys, layout, incs := genData(t, c.Sort, maxKeys, -2, 3)
+	if rapid.IntRange(0, 4).Draw(t, "wideTotals") == 0 {
+		// totals further apart than MaxInt64 (one increment each, so nothing wraps)
+		for i := range incs {
+			if rapid.Bool().Draw(t, "wide") {
+				incs[i] = []int64{rapid.SampledFrom([]int64{math.MinInt64, -6000000000000000000, -4611686018427387904, 4611686018427387904, 6000000000000000000, math.MaxInt64}).Draw(t, "wval")}
+			}
+		}
+	}
 	c.Keys, c.Layout, c.Incs = pbt.SS(keys), layout, incs
 	c.Perms = genPerms(t, len(c.samples()), 2, 4)
 	c.TopN = rapid.IntRange(-1, len(keys)+1).Draw(t, "topN")
